@@ -151,6 +151,45 @@ def classify_c05(spec, rec, mon):
     return None
 
 
+def run_runlevel(stream, seed, rng, props):
+    """L3: the Lean simulator must predict the whole run (rows, log, task table,
+    end time); for 'runlevel-paused' also a paused-and-resumed run."""
+    import runlevel
+    import monitors
+    spec = simgen.gen_spec(rng, small=(stream == "runlevel-paused"))
+    mon = monitors.Monitors(props=set(props) if props else None)
+    until = resume = None
+    if stream == "runlevel-paused":
+        first = runlevel.compare(spec)
+        rec0 = first.get("rec")
+        T = rec0["end"] if rec0 else None
+        if not isinstance(T, int) or T < 3 or rec0["exception"]:
+            T = 6
+        k = rng.randint(1, T - 1)
+        resume = sorted(set([rng.randint(k + 1, T) for _ in range(rng.randint(1, 3))] + [T]))
+        until = k
+    r = runlevel.compare(spec, until=until, resume=resume, listeners=[mon])
+    rec = r.get("rec") or {}
+    diffs = []
+    if not r.get("skipped") and not r["ok"]:
+        k0 = r["diff"][0]
+        a, b = str(r["impl"][k0]), str(r["model"][k0])
+        j = 0
+        while j < min(len(a), len(b)) and a[j] == b[j]:
+            j += 1
+        diffs.append({"block": 0, "kind": "run-level:" + ",".join(r["diff"]), "time": None,
+                      "where": {"impl": a[max(0, j - 80): j + 80], "model": b[max(0, j - 80): j + 80]},
+                      "until": until, "resume": resume})
+    viol = [dict(v, sig=v.get("sig", v["kind"])) for v in rec.get("violations", [])] if until is None else []
+    return {"stream": stream, "seed": seed, "spec": spec, "opt": {"until": until, "resume": resume},
+            "end": rec.get("end"), "exception": rec.get("exception"), "nonterminated": rec.get("nonterminated", False),
+            "violations": viol, "features": rec.get("features", {}), "blocks": rec.get("blocks", 0),
+            "replay": {"blocks": 1 if not r.get("skipped") else 0, "diffs": diffs, "skipped": r.get("skipped"),
+                       "samples": []},
+            "feat2": simgen.spec_features(spec), "feasible": simgen.feasible(spec), "tier_moves": 0,
+            "runlevel": True}
+
+
 def run_case(job):
     """job = (stream, seed, props)  ->  compact summary dict (picklable)."""
     stream, seed, props = job
@@ -163,6 +202,8 @@ def run_case(job):
             import clusterops
             return clusterops.run_case(seed, props)
         rng = random.Random("%s-%s" % (stream, seed))
+        if stream in ("runlevel", "runlevel-paused"):
+            return run_runlevel(stream, seed, rng, props)
         spec, opt = make_spec(stream, rng)
         mprops = None
         if opt["env"] == "chaotic":
